@@ -12,7 +12,8 @@
 (*   rename(tmp -> dest) -> rmtree(tmpdir)       | error path: close, rmtree  *)
 (* One action per file-system call.  Besides the calls there are              *)
 (*   Crash            the process dies between two calls (no handler runs)    *)
-(*   Fault(c)         call c raises OSError (handlers run); one per behaviour *)
+(*   Fault(c)         call c raises OSError (handlers run); one faulty call   *)
+(*                    site per behaviour (it may fail again when re-issued)    *)
 (*   FormatterRaises  an exception inside the with-block                      *)
 (*                                                                            *)
 (* A *configuration* says how the commit and the error handling are written.  *)
@@ -172,7 +173,8 @@ ERmtreeT == /\ Running /\ pc = "e_rmtree" /\ tmp' = "absent" /\ UNCHANGED dest
 ToCleanup == pc' = "e_rmtree" /\ exc' = TRUE /\ UNCHANGED how
 Propagate == Fail /\ UNCHANGED exc
 FaultT(c) ==
-    /\ Running /\ fcall = "none" /\ c \in NextCall(pc)
+    /\ Running /\ c \in NextCall(pc)
+    /\ fcall \in {"none", c}      \* one faulty call site per behaviour; re-issued, the call may fail again (persistent fault)
     /\ fcall' = c
     /\ UNCHANGED <<cfg, pre, dest>>
     /\ CASE c = "mkdtemp"  -> Propagate /\ UNCHANGED tmp
